@@ -60,6 +60,9 @@ def sandbox():
     os.makedirs(os.path.join(root, "empty"))
     # a spelling of the root that only the operating system resolves correctly: <base>/lnk/.. with lnk -> site/sub
     os.symlink(os.path.join(root, "sub"), os.path.join(base, "lnk"))
+    # entries that are neither regular files nor directories: a link to a device, and a socket
+    os.symlink("/dev/null", os.path.join(root, "null.dev"))
+    os.symlink("/dev/null", os.path.join(root, "sub", "null2.dev"))     # (never an endless device: a check must end)
     # an entry that is neither a regular file nor a directory (never opened: a socket cannot be)
     import socket
     sk = socket.socket(socket.AF_UNIX)
@@ -85,7 +88,8 @@ def cleanup():
 
 SEGS = ["", ".", "..", "sub", "deep", "a.txt", "f.txt", "index.txt", "..x", "_private", "s.txt", "%2e%2e", "a\x00b", "é",
         "ž.txt", "secret.txt", ".hidden", "backup.txt~", "unreadable.txt", "empty", "site", "site..x", "site_private",
-        "sock", "data.zzq", "noext", "big.bin", "huge.txt", "old~", "draft~", ".git", "~tilde.txt", "mid~dle.txt", "..data"]
+        "sock", "data.zzq", "noext", "big.bin", "huge.txt", "old~", "draft~", ".git", "~tilde.txt", "mid~dle.txt", "..data",
+        "null.dev", "null2.dev", "sock", "null.dev"]
 METHODS = ["GET", "HEAD", "POST", "DELETE", "PUT", "OPTIONS"]
 
 
@@ -227,6 +231,16 @@ def oracle(case):
             break
     text = body.decode("utf-8", "replace") if isinstance(body, bytes) else ""
     status = calls[0][0][:3] if calls else "none"
+    if not bad:
+        # only regular files are ever opened and served: not a device, a socket or a pipe that sits in the root
+        for o in opened:
+            if os.path.exists(o) and not os.path.isfile(o) and not os.path.isdir(o):
+                bad = "an object that is not a regular file was opened: %s" % os.path.relpath(o, sb["base"])
+        norm0 = os.path.normpath("/" + path.lstrip("/")) if "\x00" not in path else None
+        target = rootreal + norm0 if norm0 else None
+        if not bad and target and os.path.exists(target) and not os.path.isfile(target) and not os.path.isdir(target) \
+                and status == "200":
+            bad = "200 for %s, which is neither a regular file nor a directory" % os.path.relpath(target, sb["base"])
     if not bad and "SECRET-" in text:
         bad = "content of a file outside the document root was returned"
     if not bad and "TOKEN-" in text and "<title>" not in text:
